@@ -45,7 +45,7 @@ Section StepStrand.
   Definition DomReg (st : state) (d : pstr) (j : nat) : Prop :=
     (starred d = false /\ nonempty d = true /\ nlookup d (cs_names (cget st cd)) = Some j) \/
     (exists x i0 l, d = star x /\ starred x = false /\ nonempty x = true /\
-       nlookup x (cs_names (cget st cd)) = Some i0 /\ obj_len (heap st) i0 = Ok l /\
+       nlookup x (cs_names (cget st cd)) = Some i0 /\ obj_length (heap st) i0 = Ok l /\
        nlookup (star x) (cs_names (cget st cd)) = Some j /\
        klookup (KDom (star x) l) (cs_canon (cget st cd)) = Some j).
 
@@ -99,7 +99,7 @@ Section StepStrand.
     - exists i, l. split; [exact H1|]. split; [exact H3|]. left. rewrite RegD. auto.
     - exists j, l. split; [exact H2|]. split; [exact H4|]. right. exists x, i, l.
       split; [reflexivity|]. split; [exact Us|]. split; [exact Ne|]. split; [rewrite RegD; exact H1|].
-      split; [unfold obj_len; rewrite H3; cbn; destruct (Z.ltb_spec l 0); [lia | reflexivity]|].
+      split; [unfold obj_length; rewrite H3; reflexivity|].
       split; [rewrite RegD; exact H2|].
       destruct (live_reg ct _ j _ I H4 eq_refl) as [_ K]. exact K.
   Qed.
